@@ -147,7 +147,7 @@ def gen_oflags(rng, safe_fifo=True):
     if rng.random() < 0.3:
         fl = O["PATH"] | (O["RDONLY"])
     for name, p in (("DIRECTORY", 0.2), ("NOFOLLOW", 0.3), ("APPEND", 0.15), ("NONBLOCK", 1.0 if safe_fifo else 0.2),
-                    ("NOATIME", 0.1), ("CLOEXEC", 0.3), ("SYNC", 0.05), ("DSYNC", 0.05), ("NOCTTY", 0.1)):
+                    ("NOATIME", 0.1), ("CLOEXEC", 0.3), ("SYNC", 0.05), ("DSYNC", 0.05), ("NOCTTY", 0.1), ("DIRECT", 0.12)):
         if rng.random() < p:
             fl |= O[name]
     if fl & O["PATH"]:
